@@ -13,8 +13,11 @@
     * `SchemaRef.Ref` is "a reference" iff it is non-empty and contains `#` (`isRef`).
   Every Go operation that can panic is an explicit `Outcome.panic`.  The model has two versions,
   selected by `fx : Bool`: `fx = false` is the generator BEFORE the /repo fixes 70c59a6, 4e6f2a6,
-  ca4fdd6 (kept so that the former defects stay checked statements), `fx = true` the current one, in
-  which the first four sites below are `err` returns:
+  ca4fdd6, fd9167a (kept so that the former defects stay checked statements), `fx = true` the current
+  one.  fd9167a added two `err` returns that are not panic sites of the front-end itself (`enum: []`
+  and `oneOf: []` / `anyOf: []` produced an empty enum / union on which later stages panicked):
+  `walk*_nonEmpty` below proves that the current generator never emits an empty enum or union.
+  In the current version the first four sites below are `err` returns:
       "walkEnum: Type.Slice()[0]"           enum without (or with empty) type          (fixed 70c59a6)
       "walkSchemaRef: nil SchemaRef"        `type: array` without `items`              (fixed 4e6f2a6)
       "walkDefinitions: nil Schema"         a SchemaRef whose Value is nil, Ref not `#` (fixed ca4fdd6)
@@ -131,15 +134,21 @@ def walkRef (fx : Bool) : ORef → Outcome Ty
 def walkDefinitions (fx : Bool) : OSchema → Outcome Ty
   | .mk a allOf anyOf oneOf props addl items =>
     if a.hasAllOf then bind3 (walkList fx allOf) fun ts => .ok (.inter ts {})
-    else if a.hasAnyOf then bind3 (walkList fx anyOf) fun ts => .ok (.disj ts (discr a) {})
-    else if a.hasOneOf then bind3 (walkList fx oneOf) fun ts => .ok (.disj ts (discr a) {})
+    else if a.hasAnyOf then
+      -- walkDisjunctions: since fd9167a a present but empty list is an error
+      (if fx && anyOf.isEmpty then .err "oneOf/anyOf with no branches"
+       else bind3 (walkList fx anyOf) fun ts => .ok (.disj ts (discr a) {}))
+    else if a.hasOneOf then
+      (if fx && oneOf.isEmpty then .err "oneOf/anyOf with no branches"
+       else bind3 (walkList fx oneOf) fun ts => .ok (.disj ts (discr a) {}))
     else
     match a.enum with
     | some vals =>
-      -- walkEnum
+      -- walkEnum (since fd9167a: `enum: []` is an error, after the type check of 70c59a6)
       match typeHead a with
       | none => site fx "walkEnum: Type.Slice()[0]"
       | some t =>
+        if fx && vals.isEmpty then .err "enum with no values" else
         match enumKind t with
         | none => .err "only strings/numbers are supported"
         | some k => .ok (.enum (vals.map fun v => { name := memberName (typeIs a "string") v, value := v, kind := k }) {})
@@ -273,11 +282,15 @@ theorem walkDefinitions_noPanic (fx : Bool) : ∀ s : OSchema, okSchema fx s = t
     simp only [ha1, Bool.false_eq_true, if_false] at h ⊢
     by_cases ha2 : a.hasAnyOf = true
     · simp only [ha2, if_true] at h ⊢
-      exact bind3_noPanic _ _ (walkList_noPanic fx anyOf h) (fun _ _ => rfl)
+      split
+      · rfl
+      · exact bind3_noPanic _ _ (walkList_noPanic fx anyOf h) (fun _ _ => rfl)
     simp only [ha2, Bool.false_eq_true, if_false] at h ⊢
     by_cases ha3 : a.hasOneOf = true
     · simp only [ha3, if_true] at h ⊢
-      exact bind3_noPanic _ _ (walkList_noPanic fx oneOf h) (fun _ _ => rfl)
+      split
+      · rfl
+      · exact bind3_noPanic _ _ (walkList_noPanic fx oneOf h) (fun _ _ => rfl)
     simp only [ha3, Bool.false_eq_true, if_false] at h ⊢
     cases he : a.enum with
     | some vals =>
@@ -287,7 +300,11 @@ theorem walkDefinitions_noPanic (fx : Bool) : ∀ s : OSchema, okSchema fx s = t
         rcases h with h | h
         · subst h; rfl
         · simp [hth] at h
-      | some t => simp only []; split <;> rfl
+      | some t =>
+        simp only []
+        split
+        · rfl
+        · split <;> rfl
     | none =>
       simp only [he] at h ⊢
       by_cases h1 : typeIs a "string" = true
@@ -420,17 +437,21 @@ theorem walkDefinitions_wf (fx : Bool) : ∀ (s : OSchema) (t : Ty), walkDefinit
       simp only [listWf, Bool.and_eq_true] at this
       simp [tyWf, Cog.NF.noBadTy, allTy, enumMembersScalarNode, this.1, this.2]
     · split at h
-      · obtain ⟨ts, h1, h2⟩ := bind3_ok h
-        cases h2
-        have := walkList_wf fx anyOf ts h1
-        simp only [listWf, Bool.and_eq_true] at this
-        simp [tyWf, Cog.NF.noBadTy, allTy, enumMembersScalarNode, this.1, this.2]
       · split at h
+        · cases h
         · obtain ⟨ts, h1, h2⟩ := bind3_ok h
           cases h2
-          have := walkList_wf fx oneOf ts h1
+          have := walkList_wf fx anyOf ts h1
           simp only [listWf, Bool.and_eq_true] at this
           simp [tyWf, Cog.NF.noBadTy, allTy, enumMembersScalarNode, this.1, this.2]
+      · split at h
+        · split at h
+          · cases h
+          · obtain ⟨ts, h1, h2⟩ := bind3_ok h
+            cases h2
+            have := walkList_wf fx oneOf ts h1
+            simp only [listWf, Bool.and_eq_true] at this
+            simp [tyWf, Cog.NF.noBadTy, allTy, enumMembersScalarNode, this.1, this.2]
         · cases he : a.enum with
           | some vals =>
             simp only [he] at h
@@ -438,13 +459,15 @@ theorem walkDefinitions_wf (fx : Bool) : ∀ (s : OSchema) (t : Ty), walkDefinit
             | none => cases fx <;> simp [hth, site] at h
             | some tn =>
               simp only [hth] at h
-              cases hek : enumKind tn with
-              | none => simp [hek] at h
-              | some k =>
-                simp only [hek] at h
-                cases h
-                have hk := enumKind_scalar hek
-                simp [tyWf, Cog.NF.noBadTy, allTy, enumMembersScalarNode, memberScalar, hk]
+              split at h
+              · cases h
+              · cases hek : enumKind tn with
+                | none => simp [hek] at h
+                | some k =>
+                  simp only [hek] at h
+                  cases h
+                  have hk := enumKind_scalar hek
+                  simp [tyWf, Cog.NF.noBadTy, allTy, enumMembersScalarNode, memberScalar, hk]
           | none =>
             simp only [he] at h
             split at h
@@ -532,5 +555,171 @@ theorem generateASTv_wf (fx : Bool) (pkg : String) (cs : Option (List (String ×
     cases h2
     have := declare_wf fx pkg l os h1
     simp [wfIR, Cog.NF.wfIR, Cog.NF.eptOk, allSchemas, allTy, enumMembersScalarNode, this.1, this.2]
+
+/-! ### since fd9167a: no empty enum, no empty union in the output -/
+
+def nonEmptyNode : Ty → Bool
+  | .enum vs _ => !vs.isEmpty
+  | .disj bs _ _ => !bs.isEmpty
+  | _ => true
+
+theorem scalarOf_nonEmpty {kind : String} {a : OAttrs} {t : Ty} (h : scalarOf kind a = .ok t) :
+    allTy nonEmptyNode t = true := by
+  simp only [scalarOf] at h
+  cases hc : getConstraints a with
+  | ok cs => simp only [hc] at h; cases h; simp [allTy, nonEmptyNode]
+  | err _ => simp [hc] at h
+  | panic _ => simp [hc] at h
+
+theorem walkList_length : ∀ (rs : List ORef) (ts : List Ty), walkList true rs = .ok ts → ts.length = rs.length
+  | [], ts, h => by simp only [walkList] at h; cases h; rfl
+  | r :: rs, ts, h => by
+    simp only [walkList] at h
+    obtain ⟨t, _, h2⟩ := bind3_ok h
+    obtain ⟨ts', h3, h4⟩ := bind3_ok h2
+    cases h4
+    simp [walkList_length rs ts' h3]
+
+mutual
+theorem walkRef_nonEmpty : ∀ (r : ORef) (t : Ty), walkRef true r = .ok t → allTy nonEmptyNode t = true
+  | .nilPtr => fun t h => by simp [walkRef] at h
+  | .unresolved ref => fun t h => by
+    simp only [walkRef] at h
+    split at h
+    · cases h; simp [allTy, nonEmptyNode]
+    · simp [site] at h
+  | .resolved ref s => fun t h => by
+    simp only [walkRef] at h
+    split at h
+    · cases h; simp [allTy, nonEmptyNode]
+    · exact walkDefinitions_nonEmpty s t h
+theorem walkDefinitions_nonEmpty : ∀ (s : OSchema) (t : Ty), walkDefinitions true s = .ok t → allTy nonEmptyNode t = true
+  | .mk a allOf anyOf oneOf props addl items => fun t h => by
+    simp only [walkDefinitions] at h
+    split at h
+    · obtain ⟨ts, h1, h2⟩ := bind3_ok h
+      cases h2
+      simp [allTy, nonEmptyNode, walkList_nonEmpty allOf ts h1]
+    · split at h
+      · split at h
+        · cases h
+        · rename_i hne
+          obtain ⟨ts, h1, h2⟩ := bind3_ok h
+          cases h2
+          have hl := walkList_length anyOf ts h1
+          have : ts.isEmpty = false := by
+            cases ts with
+            | nil => cases anyOf with
+              | nil => simp at hne
+              | cons _ _ => simp at hl
+            | cons _ _ => rfl
+          simp [allTy, nonEmptyNode, this, walkList_nonEmpty anyOf ts h1]
+      · split at h
+        · split at h
+          · cases h
+          · rename_i hne
+            obtain ⟨ts, h1, h2⟩ := bind3_ok h
+            cases h2
+            have hl := walkList_length oneOf ts h1
+            have : ts.isEmpty = false := by
+              cases ts with
+              | nil => cases oneOf with
+                | nil => simp at hne
+                | cons _ _ => simp at hl
+              | cons _ _ => rfl
+            simp [allTy, nonEmptyNode, this, walkList_nonEmpty oneOf ts h1]
+        · cases he : a.enum with
+          | some vals =>
+            simp only [he] at h
+            cases hth : typeHead a with
+            | none => simp [hth, site] at h
+            | some tn =>
+              simp only [hth] at h
+              split at h
+              · cases h
+              · rename_i hne
+                cases hek : enumKind tn with
+                | none => simp [hek] at h
+                | some k =>
+                  simp only [hek] at h
+                  cases h
+                  cases vals with
+                  | nil => simp at hne
+                  | cons _ _ => simp [allTy, nonEmptyNode]
+          | none =>
+            simp only [he] at h
+            split at h
+            · exact scalarOf_nonEmpty h
+            · split at h
+              · split at h
+                · split at h
+                  · cases h; simp [allTy, nonEmptyNode]
+                  · obtain ⟨vt, h1, h2⟩ := bind3_ok h
+                    cases h2
+                    simp [allTy, nonEmptyNode, walkRef_nonEmpty addl vt h1]
+                · obtain ⟨fs, h1, h2⟩ := bind3_ok h
+                  cases h2
+                  simp [allTy, allList, nonEmptyNode, walkProps_nonEmpty a.required props fs h1]
+              · split at h
+                · split at h
+                  · cases h
+                  · obtain ⟨et, h1, h2⟩ := bind3_ok h
+                    cases h2
+                    simp [allTy, nonEmptyNode, walkRef_nonEmpty items et h1]
+                · split at h
+                  · cases h; simp [allTy, nonEmptyNode]
+                  · split at h
+                    · exact scalarOf_nonEmpty h
+                    · split at h
+                      · exact scalarOf_nonEmpty h
+                      · cases h; simp [allTy, nonEmptyNode]
+theorem walkList_nonEmpty : ∀ (rs : List ORef) (ts : List Ty), walkList true rs = .ok ts → allList nonEmptyNode ts = true
+  | [] => fun ts h => by simp only [walkList] at h; cases h; simp [allList]
+  | r :: rs => fun ts h => by
+    simp only [walkList] at h
+    obtain ⟨t, h1, h2⟩ := bind3_ok h
+    obtain ⟨ts', h3, h4⟩ := bind3_ok h2
+    cases h4
+    simp [allList, walkRef_nonEmpty r t h1, walkList_nonEmpty rs ts' h3]
+theorem walkProps_nonEmpty (required : List String) : ∀ (ps : List (String × ORef)) (fs : List Field),
+    walkProps true required ps = .ok fs → allFields nonEmptyNode fs = true
+  | [] => fun fs h => by simp only [walkProps] at h; cases h; simp [allFields]
+  | (name, r) :: rest => fun fs h => by
+    simp only [walkProps] at h
+    obtain ⟨t, h1, h2⟩ := bind3_ok h
+    split at h2
+    · cases h2
+    · obtain ⟨fs', h3, h4⟩ := bind3_ok h2
+      cases h4
+      simp [allFields, walkRef_nonEmpty r t h1, walkProps_nonEmpty required rest fs' h3]
+end
+
+theorem declare_nonEmpty (pkg : String) : ∀ (cs : List (String × ORef)) (os : List (String × Obj)),
+    declare true pkg cs = .ok os → (os.all fun ko => allTy nonEmptyNode ko.2.ty) = true
+  | [], os, h => by simp only [declare] at h; cases h; simp
+  | (name, r) :: rest, os, h => by
+    simp only [declare] at h
+    obtain ⟨t, h1, h2⟩ := bind3_ok h
+    split at h2
+    · cases h2
+    · obtain ⟨os', h3, h4⟩ := bind3_ok h2
+      cases h4
+      simp [walkRef_nonEmpty r t h1, declare_nonEmpty pkg rest os' h3]
+
+/-- the current generator never returns an empty enum or an empty union (fix fd9167a); before it
+    `enum: []` and `oneOf: []` went through (`generateASTPreFix`, see the witnesses in Props/C04) -/
+theorem generateAST_nonEmpty (pkg : String) (cs : Option (List (String × ORef))) (s : Schema)
+    (h : generateASTv true pkg cs = .ok s) : allSchemas nonEmptyNode [s] = true := by
+  cases cs with
+  | none =>
+    simp only [generateASTv] at h
+    cases h
+    simp [allSchemas, allTy, nonEmptyNode]
+  | some l =>
+    simp only [generateASTv] at h
+    obtain ⟨os, h1, h2⟩ := bind3_ok h
+    cases h2
+    have := declare_nonEmpty pkg l os h1
+    simp [allSchemas, allTy, nonEmptyNode, this]
 
 end Cog.Total.OpenApi
